@@ -15,6 +15,8 @@ regenerated from the Go sources on every run).
 | `(*listInternalKey).encode`                 | `listInternalKey_encode`             | `listKey`           | `trans_listInternalKey_encode_eq` |
 | `(*zsetInternalKey).encodeWithMember`       | `zsetInternalKey_encodeWithMember`   | `zmemKey`           | `trans_zsetInternalKey_encodeWithMember_eq` |
 | `(*zsetInternalKey).encodeWithScore`        | `zsetInternalKey_encodeWithScore`    | `zscoreKey`         | `trans_zsetInternalKey_encodeWithScore_eq` |
+| `(*DataTypeService).Set` (`types.go`), the arguments of its `db.Put` | `Set_put`   | `encodeStr` (in `set`) | `trans_Set_put_eq` |
+| `(*DataTypeService).Get` (`types.go`), behind its `db.Get`           | `Get`       | `get`                  | `trans_Get_eq` |
 
 Ranges.  The receiver's fields are separate arguments of the generated definitions.  `expire` / `version`
 are Go `int64`s; the model keeps them as `Nat`, so they are compared on `0 ≤ · < 2^63`; `size < 2^32`,
@@ -24,6 +26,16 @@ length of `setKey` / `zscoreKey` is not restricted further (`uint32(len(member))
 model's `le32`).  The score of `encodeWithScore` is the byte string `utils.Float64ToBytes(zk.score)`, an
 abstract parameter of the generated definition (floats are outside the translated subset): the theorem holds
 for every byte string.
+
+`Set` is translated in the translator's mode `putArgs`: the generated `Set_put` yields the `(key, value)` the Go
+function hands to `db.Put` when `value != nil` (the `nil` test is dropped by the table entry `nilNoop`; the model
+has an `Option` there); `time.Now().Add(ttl).UnixNano()` is an abstract parameter `Int → Int`, compared with the
+model for every function that maps the given `ttl` to `now + ttl < 2^63`.  `Get` is translated as a whole, with
+what `db.Get(key)` returns as an abstract parameter (table entry `dbGet`: the error branch — key empty / not
+found — is dropped) and `time.Now().UnixNano()` as an abstract parameter; it is compared with the model's `get`
+on every stored record on which the model does not say `Reply.panic` (empty record: `encValue[0]`; overflowing
+expiry varint: negative `index`), including records of other types (`ErrWrongTypeOperation`), expired ones
+(`nil`) and negative expiries.
 
 `decodeMetadata` is compared on exactly the inputs on which the model decodes (`decodeMeta buf = some m`):
 this includes records that end early (Go and the model read zeros; no `n ≠ 0` requirement as in `TransEq2`,
@@ -100,7 +112,7 @@ theorem pre_all {b p : ByteArray} {n : Nat} (hpre : Pre b p n) (hn : p.size = n)
     one `Pre` step per write, whatever their number; leaves the index / fit side conditions (`n = B.size`) -/
 macro "pre_steps" B:term : tactic => `(tactic| (
   refine pre_all (n := ByteArray.size $B) ?_ ?_
-  repeat' (first
+  repeat' (with_reducible first
     | refine pre_writeAt ?_ ?_ ?_ ?_
     | refine pre_putAt ?_ ?_ ?_
     | exact pre_empty _)))
@@ -248,7 +260,7 @@ theorem trans_metadata_encode_eq (m : Datatype.Meta) (he : m.expire < 2^63) (hv 
     have hBs := congrArg ByteArray.size hB
     rw [size_mkBytes] at hBs
     refine pre_extract (n := B.size) ?_ ?_
-    · repeat' (first | refine pre_putAt ?_ ?_ ?_ | exact pre_empty _)
+    · repeat' (with_reducible first | refine pre_putAt ?_ ?_ ?_ | exact pre_empty _)
       all_goals simp only [ByteArray.size_append, ByteArray.size_empty, hT, hsz1, hsz2, hsz3, hsz4, hsz5]
       all_goals omega
     · simp only [ByteArray.size_append, ByteArray.size_empty, hT, hsz1, hsz2, hsz3, hsz4, hsz5]
@@ -266,7 +278,7 @@ theorem trans_metadata_encode_eq (m : Datatype.Meta) (he : m.expire < 2^63) (hv 
     have hBs := congrArg ByteArray.size hB
     rw [size_mkBytes] at hBs
     refine pre_extract (n := B.size) ?_ ?_
-    · repeat' (first | refine pre_putAt ?_ ?_ ?_ | exact pre_empty _)
+    · repeat' (with_reducible first | refine pre_putAt ?_ ?_ ?_ | exact pre_empty _)
       all_goals simp only [ByteArray.size_append, ByteArray.size_empty, hT, hsz1, hsz2, hsz3]
       all_goals omega
     · simp only [ByteArray.size_append, ByteArray.size_empty, hT, hsz1, hsz2, hsz3]
@@ -510,5 +522,138 @@ example : datatype.decodeMetadata ⟨#[1, 0]⟩ = { dataType := 1, expire := 0, 
 example : (binary_Uvarint ⟨#[0x80, 0x80, 0x80, 0x80, 0x80, 0x80, 0x80, 0x80, 0x80, 0x80, 0x01]⟩).2 = -11 := by decide
 example : (binary_Uvarint ⟨#[0x80, 0x80, 0x80, 0x80, 0x80, 0x80, 0x80, 0x80, 0x80, 0x02]⟩).2 = -10 := by decide
 example : (binary_Uvarint ⟨#[0x80, 0x80]⟩).2 = 0 := by decide
+
+/-! ## the string record: `Set` (what it hands to `db.Put`) and `Get` (how it reads what `db.Get` returns) -/
+
+/-- the string record `Set` builds, for the expiry `x` (an `int64 ≥ 0`) it has computed -/
+theorem encodeStr_eq (expire : Nat) (v : ByteArray) (hE : expire < 2^63) (x : Int) (hx : x = (expire : Int)) :
+    Datatype.encodeStr expire v
+      = (ByteArray.empty ++ ((ByteArray.empty ++ ByteArray.mk #[UInt8.ofNat datatype.String_]) ++ binary_PutVarint x)) ++ v
+    ∧ (binary_PutVarint x).size ≤ 10 := by
+  subst hx
+  constructor
+  · rw [PutVarint_eq, Datatype.encodeStr, ofList_cons, ByteArray.empty_append, ByteArray.empty_append]
+    rfl
+  · rw [PutVarint_eq, size_ofList]
+    exact putUvarint_length_le _ (by omega)
+
+/-- name a fresh buffer `mkBytes N` (the first one in the goal) `B`, keeping only its size -/
+macro "gen_buf" B:ident h:ident : tactic => `(tactic| (
+  generalize hB_ : mkBytes _ = $B
+  have $h := (congrArg ByteArray.size hB_).symm.trans (size_mkBytes _)
+  clear hB_))
+
+theorem size_mk1 (x : UInt8) : (ByteArray.mk #[x]).size = 1 := rfl
+
+/-- what is left of `Set_put` once the expiry is known: the 11-byte scratch buffer holds the type byte and the varint `E`,
+    the record is a fresh buffer into which that header and the value are copied -/
+macro "set_put_tail" hEs:ident : tactic => `(tactic| (
+  generalize binary_PutVarint _ = E at $hEs:ident ⊢
+  rw [Prod.mk.injEq]
+  refine ⟨rfl, ?_⟩
+  generalize hX : ByteArray.extract _ 0 _ = X
+  have hX' : X = (ByteArray.empty ++ ByteArray.mk #[UInt8.ofNat datatype.String_]) ++ E := by
+    rw [← hX]
+    gen_buf B0 hB0
+    refine pre_extract (n := B0.size) ?_ ?_
+    · repeat' (with_reducible first | refine pre_putAt ?_ ?_ ?_ | exact pre_empty _)
+      all_goals simp only [ByteArray.size_append, ByteArray.size_empty, size_mk1]
+      all_goals omega
+    · simp only [ByteArray.size_append, ByteArray.size_empty, size_mk1]
+      omega
+  subst hX'
+  gen_buf B hB
+  pre_steps B
+  all_goals first
+    | (apply Or.inr; simp only [ByteArray.size_append, ByteArray.size_empty, size_mk1]; omega)
+    | (apply Or.inl; with_reducible rfl)
+    | (simp only [ByteArray.size_append, ByteArray.size_empty, size_mk1]; try omega)))
+
+/-- `Set` (for `value != nil`) calls `db.Put(key, encodeStr expire value)` with `expire = now + ttl` resp. `0` -/
+theorem trans_Set_put_eq (clock : Int → Int) (key v : ByteArray) (now ttl : Nat)
+    (hv : v.size < 2^60) (hnow : now + ttl < 2^63) (hclock : ttl ≠ 0 → clock (ttl : Int) = ((now + ttl : Nat) : Int)) :
+    datatype.Set_put clock key v (ttl : Int) = (key, Datatype.encodeStr (if ttl ≠ 0 then now + ttl else 0) v) := by
+  by_cases h0 : ttl = 0
+  · have hc : ¬ ((ttl : Int) ≠ 0) := by omega
+    obtain ⟨hP, hEs⟩ := encodeStr_eq 0 v (by decide) 0 rfl
+    rw [if_neg (by omega), hP]
+    simp (disch := omega) only [datatype.Set_put, i64_of_range, if_neg hc]
+    set_put_tail hEs
+  · have hc : (ttl : Int) ≠ 0 := by omega
+    obtain ⟨hP, hEs⟩ := encodeStr_eq (now + ttl) v hnow (clock ttl) (hclock h0)
+    rw [if_pos h0, hP]
+    simp (disch := omega) only [datatype.Set_put, i64_of_range, if_pos hc]
+    set_put_tail hEs
+
+/-! ## `Get` -/
+
+/-- the Go results `([]byte, error)` of `Get` for the model's replies (`nil` and empty slices are both the empty
+    `ByteArray`, so `Reply.nil` and `Reply.bytes ByteArray.empty` coincide on the Go side of this translation) -/
+def ofGetReply : Datatype.Reply → ByteArray × Option String
+  | .bytes b => (b, none)
+  | .wrongType => (ByteArray.empty, some "ErrWrongTypeOperation")
+  | _ => (ByteArray.empty, none)
+
+theorem trans_Get_eq (db : ByteArray → ByteArray) (kv : Datatype.KV) (key enc : ByteArray) (now : Nat)
+    (hkey : key.size ≠ 0) (hget : kv.get key = some enc) (hdb : db key = enc) (hnow : now < 2^63)
+    (hnp : (Datatype.get kv now key).2 ≠ .panic) :
+    datatype.Get db (now : Int) key = ofGetReply (Datatype.get kv now key).2 := by
+  unfold Datatype.get at hnp ⊢
+  rw [if_neg hkey] at hnp ⊢
+  simp only [hget] at hnp ⊢
+  cases hl : enc.data.toList with
+  | nil => simp only [hl] at hnp; exact absurd rfl hnp
+  | cons t r =>
+    simp only [hl] at hnp ⊢
+    have hg := get!_zero_of_toList hl
+    by_cases ht : t = Datatype.tString
+    · have hc : ¬ (t.toNat ≠ datatype.String_) := by rw [ht]; exact fun h => h rfl
+      rw [if_neg (by simpa using ht)] at hnp ⊢
+      cases hu : uvarint r with
+      | none => simp only [hu] at hnp; exact absurd rfl hnp
+      | some p =>
+        obtain ⟨ux, n⟩ := p
+        simp only [hu] at hnp ⊢
+        have hu' : uvarint (enc.data.toList.drop 1) = some (ux, n) := by rw [hl]; exact hu
+        have bn := uvarintGo_bound _ _ _ _ _ _ hu (by omega)
+        have v1 := Uvarint_drop hu'
+        by_cases hx : ux % 2 = 0 ∧ ux / 2 > 0 ∧ ux / 2 ≤ now
+        · rw [if_pos hx]
+          have hc2 : (if ux % 2 = 0 then ((ux / 2 : Nat) : Int) else -((ux / 2 : Nat) : Int) - 1) > 0 ∧
+              (if ux % 2 = 0 then ((ux / 2 : Nat) : Int) else -((ux / 2 : Nat) : Int) - 1) ≤ (now : Int) := by
+            rw [if_pos hx.1]; omega
+          simp (disch := omega) only [datatype.Get, hdb, hg, binary_Varint, v1, i64_of_range, if_neg hc, if_pos hc2]
+          rfl
+        · rw [if_neg hx]
+          have hc2 : ¬ ((if ux % 2 = 0 then ((ux / 2 : Nat) : Int) else -((ux / 2 : Nat) : Int) - 1) > 0 ∧
+              (if ux % 2 = 0 then ((ux / 2 : Nat) : Int) else -((ux / 2 : Nat) : Int) - 1) ≤ (now : Int)) := by
+            split <;> omega
+          simp (disch := omega) only [datatype.Get, hdb, hg, binary_Varint, v1, i64_of_range, if_neg hc, if_neg hc2]
+          show (enc.extract (1 + (n : Int)).toNat enc.size, none) = (enc.extract (1 + n) enc.size, none)
+          congr 2
+    · have hc : t.toNat ≠ datatype.String_ := fun h => ht (UInt8.toNat_inj.1 h)
+      rw [if_pos (by simpa using ht)]
+      simp (disch := omega) only [datatype.Get, hdb, hg, if_pos hc]
+      rfl
+
+/-- `Set k [1,2,3]` with a ttl of 5 ns at time 1000: the record is type 0, varint 2·1005, the value -/
+example : datatype.Set_put (fun d => 1000 + d) ⟨#[0x6b]⟩ ⟨#[1, 2, 3]⟩ 5 = (⟨#[0x6b]⟩, Datatype.encodeStr 1005 ⟨#[1, 2, 3]⟩) :=
+  (trans_Set_put_eq (fun d => 1000 + d) ⟨#[0x6b]⟩ ⟨#[1, 2, 3]⟩ 1000 5 (by decide) (by decide) (fun _ => rfl)).trans rfl
+#guard Datatype.encodeStr 1005 ⟨#[1, 2, 3]⟩ = ⟨#[0, 0xda, 0x0f, 1, 2, 3]⟩
+#guard datatype.Set_put (fun d => 1000 + d) ⟨#[0x6b]⟩ ⟨#[1, 2, 3]⟩ 5 = (⟨#[0x6b]⟩, ⟨#[0, 0xda, 0x0f, 1, 2, 3]⟩)
+/-- without ttl -/
+example : datatype.Set_put (fun d => 1000 + d) ⟨#[0x6b]⟩ ⟨#[1, 2, 3]⟩ 0 = (⟨#[0x6b]⟩, Datatype.encodeStr 0 ⟨#[1, 2, 3]⟩) :=
+  (trans_Set_put_eq (fun d => 1000 + d) ⟨#[0x6b]⟩ ⟨#[1, 2, 3]⟩ 1000 0 (by decide) (by decide) (fun h => absurd rfl h)).trans rfl
+#guard datatype.Set_put (fun d => 1000 + d) ⟨#[0x6b]⟩ ⟨#[1, 2, 3]⟩ 0 = (⟨#[0x6b]⟩, ⟨#[0, 0, 1, 2, 3]⟩)
+/-- `Get` of that record before and after its expiry, and of a hash's metadata record -/
+example : datatype.Get (fun _ => ⟨#[0, 0xda, 0x0f, 1, 2, 3]⟩) 1004 ⟨#[0x6b]⟩ = (⟨#[1, 2, 3]⟩, none) :=
+  (trans_Get_eq (fun _ => ⟨#[0, 0xda, 0x0f, 1, 2, 3]⟩) [(⟨#[0x6b]⟩, ⟨#[0, 0xda, 0x0f, 1, 2, 3]⟩)] ⟨#[0x6b]⟩ _ 1004
+    (by decide) rfl rfl (by decide) (by decide)).trans (by decide)
+example : datatype.Get (fun _ => ⟨#[0, 0xda, 0x0f, 1, 2, 3]⟩) 1005 ⟨#[0x6b]⟩ = (ByteArray.empty, none) :=
+  (trans_Get_eq (fun _ => ⟨#[0, 0xda, 0x0f, 1, 2, 3]⟩) [(⟨#[0x6b]⟩, ⟨#[0, 0xda, 0x0f, 1, 2, 3]⟩)] ⟨#[0x6b]⟩ _ 1005
+    (by decide) rfl rfl (by decide) (by decide)).trans (by decide)
+example : datatype.Get (fun _ => Datatype.encodeMeta mHash) 1005 ⟨#[0x6b]⟩ = (ByteArray.empty, some "ErrWrongTypeOperation") :=
+  (trans_Get_eq (fun _ => Datatype.encodeMeta mHash) [(⟨#[0x6b]⟩, Datatype.encodeMeta mHash)] ⟨#[0x6b]⟩ _ 1005
+    (by decide) rfl rfl (by decide) (by decide)).trans (by decide)
 
 end XixiKV.TransEq
